@@ -162,7 +162,7 @@ func live(q []*waiter) []*waiter {
 
 func (e *Engine) chanSend(ch *ChanV, v any) {
 	if ch.closed {
-		panic(pathEnd{"PANIC send on closed channel"})
+		e.panicObligation("PANIC send on closed channel")
 	}
 	ch.recvq = live(ch.recvq)
 	if len(ch.recvq) > 0 {
@@ -179,7 +179,7 @@ func (e *Engine) chanSend(ch *ChanV, v any) {
 	ch.sendq = append(ch.sendq, me)
 	e.park() // rendezvous: blocked until a receiver takes it (or the channel is closed: then Go panics)
 	if ch.closed && !me.dead {
-		panic(pathEnd{"PANIC send on closed channel"})
+		e.panicObligation("PANIC send on closed channel")
 	}
 }
 
@@ -202,7 +202,7 @@ func (e *Engine) chanRecv(ch *ChanV) (any, bool) {
 
 func (e *Engine) closeChan(ch *ChanV) {
 	if ch.closed {
-		panic(pathEnd{"PANIC close of closed channel"})
+		e.panicObligation("PANIC close of closed channel")
 	}
 	ch.closed = true
 	for _, w := range live(ch.recvq) {
@@ -355,7 +355,7 @@ func (e *Engine) stub8(fn *ssa.Function, args []any) (any, bool) {
 	case "(*sync.RWMutex).Unlock", "(*sync.Mutex).Unlock":
 		mu := e.mutex(args[0])
 		if !mu.writer {
-			panic(pathEnd{"PANIC unlock of unlocked mutex"})
+			e.panicObligation("PANIC unlock of unlocked mutex")
 		}
 		mu.writer = false
 		mu.wakeAll(e)
@@ -371,7 +371,7 @@ func (e *Engine) stub8(fn *ssa.Function, args []any) (any, bool) {
 	case "(*sync.RWMutex).RUnlock":
 		mu := e.mutex(args[0])
 		if mu.readers == 0 {
-			panic(pathEnd{"PANIC RUnlock of unlocked RWMutex"})
+			e.panicObligation("PANIC RUnlock of unlocked RWMutex")
 		}
 		mu.readers--
 		mu.wakeAll(e)
